@@ -32,6 +32,20 @@ CLAIMS = {
              "for model.table_string/table_rich_text/merge_cells/table_string_key and Cell._set_merge (frame only), logging level "
              "arbitrary. Two genuine defects found and repaired by fix: commits ba61402, d484052 (known_findings.json). Trusted: " + TB,
         technique="contract-based deductive verification: self-generated VCs over the Python AST with if-join merging, discharged by z3/cvc5; counter-models replayed on the real code"),
+    "C19": dict(
+        category="proof", design="DESIGN.md section 7 C19",
+        text="Contract-based deductive proof on the real containers.ItemsList and document.Sheet._add_table / Document.add_sheet: "
+             "index lookup returns items[key] for -n<=key<n and raises IndexError exactly outside (any n, any key); name lookup "
+             "returns the first item with exactly that name else KeyError (loop invariant, any list length); __contains__ iff some "
+             "name equals ignoring case; both adders for explicit and generated names: exactly one item appended, earlier items "
+             "and names unchanged, invariant U (no two siblings equal ignoring case) preserved, generated names fresh, explicit "
+             "duplicate raises IndexError with collection and names unchanged - for any number of siblings and any names "
+             "(quantified VCs). Save/reopen order and the same clauses over concrete histories: bounded stand-in (labelled).",
+        note="Assumes: item name is a heap field updated by the model as told (assumed contracts for model.add_table/add_sheet "
+             "and the Sheet/Table constructors), a new object is distinct from existing elements, str.lower on 'Table '/'Sheet '+digits "
+             "(assumed lemma, probed natively), one opaque sub-expression in add_sheet, termination of the naming loop not proved. "
+             "One genuine defect repaired (fix: commit, negative indices below -n). Trusted: " + TB,
+        technique="contract-based deductive verification (quantified VCs over (len,at) lists + heap arrays, z3/cvc5) + bounded run-time-contract stand-in for reopen"),
 }
 NA_REASON = "check not built yet (build in progress; see DESIGN.md section 7 for the plan)"
 
